@@ -67,3 +67,17 @@ Proof. exact mismatch_witness. Qed.
 Example C05_example :
   let b := fst (run pfx5 w_env box_init w_ops) in live b = [] /\ bx_pool b = [0%nat].
 Proof. exact fixed_witness. Qed.
+
+(* "Once the ballotbox has moved past a stage point, that point's records are no longer consulted": counting the
+   record of a stage point p with last.Before(p) = false -- through countVoterecords (Count, MissingNodes, deferred
+   goroutines, stale pointers) or through the hold timer (countHoldeds -> countHolded, which does NOT go through
+   isNewBallot) -- emits no voteproof and changes no record, for every oracle value.  (seeded change C05-B) *)
+Theorem C05_passed_not_consulted : forall e b i sp el pv px,
+  r_sp (rec_of b i) = Some sp -> bx_last b <> None -> before (bx_last b) sp (r_isc (rec_of b i)) = false ->
+  box_count pfx5 e i el pv px b = (b, []) /\
+  snd (box_held e i el pv px b) = [] /\ (forall j, rec_of (fst (box_held e i el pv px b)) j = rec_of b j).
+Proof.
+  intros e b i sp el pv px S L B. split.
+  - eapply count_passed; eauto.
+  - eapply held_passed; eauto.
+Qed.
